@@ -576,13 +576,21 @@ def classify_falsy_bare(script, case, got_n, status, ctx):
     if not idx:
         return None
     reg = registered_script(script, case)
-    alt_script = dict(reg, comps=[BLANK if i in idx else c for i, c in enumerate(reg['comps'])])
-    alt_case = dict(case, actions={k: v for k, v in case['actions'].items()
-                                   if not any(k.startswith('M%d.' % i) for i in idx)})
-    alt = M.interpret(alt_script, alt_case)
-    if got_n == [_norm(e) for e in alt[0]] and status == alt[1]:
-        return KNOWN_FALSY_BARE
+    for sub in nonempty_subsets(idx):       # (a bare component next to cors_enable does get registered)
+        alt_script = dict(reg, comps=[BLANK if i in sub else c for i, c in enumerate(reg['comps'])])
+        alt_case = dict(case, actions={k: v for k, v in case['actions'].items()
+                                       if not any(k.startswith('M%d.' % i) for i in sub)})
+        alt = M.interpret(alt_script, alt_case)
+        if got_n == [_norm(e) for e in alt[0]] and status == alt[1]:
+            return KNOWN_FALSY_BARE
     return None
+
+
+def nonempty_subsets(idx):
+    idx = sorted(idx)
+    for r in range(len(idx), 0, -1):
+        for sub in itertools.combinations(idx, r):
+            yield set(sub)
 
 
 BLANK = {'req': None, 'rsrc': None, 'resp': None, 'startup': False, 'shutdown': False}
@@ -1079,13 +1087,14 @@ def run_lifespan_case(rec, script, lactions, count=True, built=None, late=None):
             # narrow: only the handlers of the components of the REFUSED call are surplus
             known = KNOWN_REFUSED
         idx = ctx.falsy_bare if ctx is not None else set()
-        if known is None and idx:
+        for sub in nonempty_subsets(idx) if known is None else ():
             alt = M.interpret_lifespan(
-                dict(script, comps=[dict(c, startup=False, shutdown=False) if i in idx else c
+                dict(script, comps=[dict(c, startup=False, shutdown=False) if i in sub else c
                                     for i, c in enumerate(script['comps'])]),
-                {k: v for k, v in lactions.items() if not any(k.startswith('M%d.' % i) for i in idx)}, late)
+                {k: v for k, v in lactions.items() if not any(k.startswith('M%d.' % i) for i in sub)}, late)
             if (got_trace, got_sent) == alt:
                 known = KNOWN_FALSY_BARE
+                break
         rec.violation('lifespan-handler-order' if got_trace != want_trace else 'lifespan-events', wit,
                       known_key=known)
         return
@@ -1280,8 +1289,8 @@ def run(rec):
     set_floors(rec)
     lifespan_exhaustive(rec)
     lifespan_late_exhaustive(rec)
-    config_histories_exhaustive(rec)
     exhaustive(rec)
+    config_histories_exhaustive(rec)   # (last of the deterministic parts: it meets the two recorded defects)
     random_phase(rec, 0.9 if rec.tier == 'quick' else 0.95)
 
 
